@@ -40,7 +40,12 @@ def run_case(arg):
                 done = True
                 break
         if not done:
-            return dict(cfg=cfg, part=part[:6], n=len(part), trivial=True, fails=[])
+            if sum(part) >= nref + 2:
+                # the calls together ask for at least as many steps as the uninterrupted run needed, yet the model never reports termination
+                fails.append(("never-finishes", "after %d calls asking for %d steps in total (the uninterrupted run needs %d) the model still reports itself unfinished"
+                              % (len(part), sum(part), nref)))
+                return dict(cfg=cfg, part=part[:6], n=len(part), trivial=False, fails=fails)
+            return dict(cfg=cfg, part=part[:6], n=len(part), trivial=True, fails=fails)
         if digest(m) != dref:
             fails.append(("tables-differ", "tables/summary differ from the uninterrupted run (partition of %d calls)" % len(part)))
         if m.get_simulation_results() is False:
@@ -69,8 +74,21 @@ def main():
     N0 = int(ref0._clock_struct.time_step_counter) + 1 if not ref0._clock_struct.model_is_finished else None
     N0 = 0
     m0 = build(cfgs[0]); m0._initialize()
+    nref0 = int(ref0._clock_struct.time_step_counter)
+    stuck = False
     while not m0._clock_struct.model_is_finished:
         m0.run_model(num_steps=1, initialize_model=False); N0 += 1
+        if N0 > nref0 + 5:
+            stuck = True          # stepping day by day never reaches termination although the uninterrupted run did after nref0 steps
+            break
+    if stuck:
+        sig = "never-finishes|%s|irr=%d|off=%s" % (cfgs[0]["crop"], cfgs[0]["irr"], cfgs[0]["off"])
+        json.dump(dict(property="C09", tier=a.tier, seed=a.seed, lattice="aborted: the shortest window stepped one day per call never terminates", cases=1, distinct_nontrivial=1,
+                       rule="-", failures=[dict(signature=sig, clause="stepwise execution equals one uninterrupted run",
+                                                detail="run_model(num_steps=1) called %d times on a window the uninterrupted run finishes after %d steps: the model still reports itself unfinished" % (N0, nref0),
+                                                repro="cfg=%r, one step per call" % (cfgs[0],))],
+                       samples=[], wall_s=round(time.time() - t0, 1), exceptions=[]), open(a.out, "w"), indent=1)
+        return
     # short window: ALL compositions of the 8-step run into up to 8 calls (plus overshooting last call)
     for part in compositions(N0, N0):
         cases.append((cfgs[0], part)); 
